@@ -444,17 +444,8 @@ def mk_slice(inner, lo, hi):
     lo, hi = lin_norm(lo), lin_norm(hi)
     if lo == '0':
         lo = ''
-    # x[len(x) - k:] is x[-k:], x[:len(x) - k] is x[:-k], x[:len(x)] is x[:]   (in-bounds reading)
-    it_text = 'len(%s)' % (inner if isinstance(inner, str) else render_items(inner))
-    for which, b in (('lo', lo), ('hi', hi)):
-        if b and it_text in b:
-            terms, c = lin_parse(b)
-            if terms == {it_text: 1} and c <= 0:
-                nb = str(c) if c < 0 else ''
-                if which == 'lo' and c < 0:
-                    lo = nb
-                elif which == 'hi':
-                    hi = nb
+    if isinstance(inner, str) and hi == 'len(%s)' % inner:
+        hi = ''                      # x[a:len(x)] is x[a:]
     if isinstance(inner, list):
         its = merge_consts(inner)
         if len(its) == 1 and its[0][0] == 'SLICE':
